@@ -29,6 +29,8 @@ type Case struct {
 	Deferred  bool
 	// another text is read (by the host, under another module name) after the program was read and before it is evaluated
 	InterRead bool `json:",omitempty"`
+	// the same text was read before under another module name (a rule file deployed for two tenants)
+	ReadBefore bool `json:",omitempty"`
 }
 
 const mark = "\x01"
@@ -37,7 +39,9 @@ var faults = []string{"param-q", "zz-undefined", "(throw \"boom\")", "(nth [1] 9
 	// builtins that fail inside text read at run time (the inner error has coordinates of that text)
 	"(read-string \"(1 2\")", "(eval (read-string \"(zz-undefined-inner 1)\"))", "(eval (read-string \"\\n\\n(nth [1] 9)\"))", "(read-string \"\\n\\n\\n\\n\\n\\n\\n\\n\\n)\")",
 	// threading steps written as bare names (the failing call is assembled by the macro)
-	"(-> 5 first)", "(-> [[5]] first first first)", "(->> [1] count keys)", "(apply nth [[1] 9])", "(eval (list 'nth [1] 9))", "(eval '(zz-undefined 1))"}
+	"(-> 5 first)", "(-> [[5]] first first first)", "(->> [1] count keys)", "(apply nth [[1] 9])", "(eval (list 'nth [1] 9))", "(eval '(zz-undefined 1))",
+	// the failing form is the list a reader macro stands for
+	"@5", "@\"not an atom\"", "@[1]", "^{:a 1} 5"}
 
 type wrapper struct {
 	name string
@@ -166,6 +170,7 @@ func genCase(t *rapid.T) Case {
 	sb.WriteString(rapid.SampledFrom([]string{")", "\n)", "\n)\n", " ) ; end"}).Draw(t, "close"))
 	c.Text = sb.String()
 	c.InterRead = gen.Chance(t, "interread", 3)
+	c.ReadBefore = !c.Header && gen.Chance(t, "readbefore", 4)
 	return c
 }
 
@@ -177,6 +182,9 @@ func check(c Case) pbt.Verdict {
 	var cursor *types.Position
 	if !c.Header {
 		cursor = types.NewCursorFile(c.Module)
+	}
+	if c.ReadBefore {
+		box.Guard(func() (types.MalType, error) { return lisp.READ(c.Text, types.NewCursorFile("tenants/other/rules.lisp"), e) })
 	}
 	r := box.Guard(func() (types.MalType, error) {
 		ast, err := lisp.READ(c.Text, cursor, e)
@@ -195,7 +203,7 @@ func check(c Case) pbt.Verdict {
 		}
 		return lisp.EVAL(ctx, ast, e)
 	})
-	v := pbt.Verdict{Key: c.Text + fmt.Sprint(c.InterRead), Labels: []string{"fault:" + c.Fault}}
+	v := pbt.Verdict{Key: c.Text + fmt.Sprint(c.InterRead, c.ReadBefore), Labels: []string{"fault:" + c.Fault}}
 	if c.InterRead {
 		v.Labels = append(v.Labels, "another-text-read-in-between")
 	}
